@@ -18,6 +18,8 @@ def cfg(maxsteps, export=False, view=True):
 class World:
     """Executes Cli.tla behaviours with the real binary in a scratch directory."""
 
+    pkvk = ("", "")
+
     def __init__(self, cli, base, seed):
         self.cli, self.seed = cli, seed
         self.dir = tempfile.mkdtemp(prefix="cli-", dir=base)
@@ -102,6 +104,33 @@ class World:
             if rc != 0 and err.strip() == "":
                 return False, "empty" if out == "" else "other", "FAILED-SILENTLY"
             return rc == 0, "empty" if out == "" else "other", err
+        if cmd in ("export-vk", "export-solidity", "export-solidity-stdout"):
+            out_path = os.path.join(self.dir, "export.out")
+            if os.path.exists(out_path):
+                os.remove(out_path)
+            args = [cmd.replace("-stdout", ""), "--keys-file", self.path(s["key"])] + ([] if cmd.endswith("stdout") else ["--output", out_path])
+            rc, out, err = self.run(args)
+            kind = "empty" if out == "" else ("solidity" if "pragma solidity" in out and "verifyProof" in out else "other")
+            if rc == 0 and not cmd.endswith("stdout") and (not os.path.exists(out_path) or os.path.getsize(out_path) == 0):
+                return True, "other", "exit 0 but no artefact was written"
+            return rc == 0, kind, err
+        if cmd == "r1cs":
+            out_path = os.path.join(self.dir, "r1cs.out")
+            rc, out, err = self.run(["r1cs"] + self.mode_args(s["mode"]) + ["--output", out_path, "--tree-depth", str(s["depth"]), "--batch-size", "1"])
+            return rc == 0, "empty" if out == "" else "other", err
+        if cmd == "import-setup":
+            # pk / vk "generated elsewhere": exported once per check run from a real setup by the harness (art-build, path "setup")
+            pk, vk = self.pkvk
+            if not s["have"]:
+                pk, vk = os.path.join(self.dir, "absent-pk"), os.path.join(self.dir, "absent-vk")
+            rc, out, err = self.run(["import-setup"] + self.mode_args(s["mode"]) + ["--output", self.path(s["key"]), "--pk", pk, "--vk", vk, "--tree-depth", "1", "--batch-size", "1"])
+            return rc == 0, "empty" if out == "" else "other", err
+        if cmd == "extract-circuit":
+            out_path = os.path.join(self.dir, "model.lean")
+            rc, out, err = self.run(["extract-circuit", "--output", out_path, "--tree-depth", "2", "--batch-size", "1"])
+            if rc == 0 and (not os.path.exists(out_path) or "namespace SemaphoreMTB" not in open(out_path).read()):
+                return True, "other", "exit 0 but no Lean model was written"
+            return rc == 0, "empty" if out == "" else "other", err
         if cmd == "convert-to-raw":
             rc, out, err = self.run(["convert-to-raw", "--input", self.path(s["key"]), "--output", self.path(s["to"])])
             return rc == 0, "empty" if out == "" else "other", err
@@ -127,7 +156,7 @@ def run_behaviour(cli, base, seed, steps):
             if ok != (s["exit0"] == "yes"):
                 return dict(step=i, detail="`%s` exit status %s, Cli.tla says %s. stderr: %s" % (
                     " ".join("%s=%s" % kv for kv in s.items() if kv[0] not in ("exit0", "stdout")), "0" if ok else "non-zero", "0" if s["exit0"] == "yes" else "non-zero", (err or "")[-300:]))
-            if s["cmd"] in ("prove", "gen-test-params") and kind != s["stdout"]:
+            if s["cmd"] in ("prove", "gen-test-params", "export-solidity-stdout") and kind != s["stdout"]:
                 return dict(step=i, detail="`%s` wrote %s on standard output, Cli.tla says %s" % (s["cmd"], kind, s["stdout"]))
             if err == "FAILED-SILENTLY":
                 return dict(step=i, detail="`%s` failed without a message on standard error" % s["cmd"])
@@ -170,6 +199,8 @@ def run(ctx):
     ctx.assumptions += ["the keys file does not record the mode: verify's verdict is specified from the keys and the hash alone (a --mode naming the other known mode does not change it)",
                         "dimensions A = (depth 1, batch 1), B = (depth 2, batch 1); files are damaged outside the tool (truncation to 7 / 8 / 1000 / half / len-1 bytes, 4 KB of garbage)"]
     cli = ctx.build_cli()
+    ctx.run_vh(["art-build"], dict(mode="deletion", depth=1, batch=1, path="setup", cli="", dir=ctx.scratch), timeout=900)
+    World.pkvk = (os.path.join(ctx.scratch, "pk-deletion-1-1"), os.path.join(ctx.scratch, "vk-deletion-1-1"))
     ctx.tlc("Cli", cfg(5 if ctx.quick else 6), label="Cli mc (all command sequences, 2 keys files, 2 dims)", timeout=2400, heap="16g")
     # behaviours: fixed pipelines every run + TLC-simulated sequences
     K = lambda **kw: kw
@@ -190,6 +221,18 @@ def run(ctx):
                       K(cmd="prove", key="k1", mode=m, exit0="yes", stdout="proof"), K(cmd="damage", key="k1", how="garbage", exit0="yes", stdout="empty"),
                       K(cmd="verify", key="k1", mode=m, hash="own", exit0="no", stdout="empty"), K(cmd="setup", key="k1", mode="", dim=dim, exit0="no", stdout="empty"),
                       K(cmd="setup", key="k2", mode="bogus", dim=dim, exit0="no", stdout="empty"), K(cmd="gen-test-params", mode="bogus", dim=dim, valid=True, exit0="no", stdout="empty")])
+    fixed.append([K(cmd="export-vk", key="k1", exit0="no", stdout="empty"), K(cmd="export-solidity-stdout", key="k1", exit0="no", stdout="empty"),
+                  K(cmd="import-setup", key="k1", mode=dele, have=False, exit0="no", stdout="empty"), K(cmd="import-setup", key="k1", mode="bogus", have=True, exit0="no", stdout="empty"),
+                  K(cmd="import-setup", key="k1", mode="", have=True, exit0="no", stdout="empty"), K(cmd="import-setup", key="k1", mode=dele, have=True, exit0="yes", stdout="empty"),
+                  K(cmd="export-vk", key="k1", exit0="yes", stdout="empty"), K(cmd="export-solidity", key="k1", exit0="yes", stdout="empty"),
+                  K(cmd="export-solidity-stdout", key="k1", exit0="yes", stdout="solidity"),
+                  K(cmd="gen-test-params", mode=dele, dim="A", valid=True, exit0="yes", stdout="params"), K(cmd="prove", key="k1", mode=dele, exit0="yes", stdout="proof"),
+                  K(cmd="verify", key="k1", mode=dele, hash="own", exit0="yes", stdout="empty"),
+                  K(cmd="r1cs", mode=dele, depth=2, exit0="yes", stdout="empty"), K(cmd="r1cs", mode=dele, depth=32, exit0="no", stdout="empty"), K(cmd="r1cs", mode=ins, depth=32, exit0="yes", stdout="empty"),
+                  K(cmd="r1cs", mode="", depth=2, exit0="no", stdout="empty"), K(cmd="r1cs", mode="bogus", depth=2, exit0="no", stdout="empty"), K(cmd="r1cs", mode=dele, depth=40, exit0="no", stdout="empty"),
+                  K(cmd="extract-circuit", exit0="yes", stdout="empty"),
+                  K(cmd="damage", key="k1", how="truncated", exit0="yes", stdout="empty"), K(cmd="export-vk", key="k1", exit0="no", stdout="empty"),
+                  K(cmd="export-solidity-stdout", key="k1", exit0="no", stdout="empty")])
     # keys of an independent setup of the same dimensions must reject the proof
     fixed.append([K(cmd="setup", key="k1", mode=dele, dim="A", exit0="yes", stdout="empty"), K(cmd="setup", key="k2", mode=dele, dim="A", exit0="yes", stdout="empty"),
                   K(cmd="gen-test-params", mode=dele, dim="A", valid=True, exit0="yes", stdout="params"), K(cmd="prove", key="k1", mode=dele, exit0="yes", stdout="proof"),
@@ -201,7 +244,8 @@ def run(ctx):
     sim, seen = [], set()
     for t in r["traces"]:
         k = json.dumps(t, sort_keys=True)
-        interesting = sum(1 for s in t if s["cmd"] in ("prove", "verify", "convert-to-raw")) >= 2 and sum(1 for s in t if s["cmd"] == "setup") <= 2
+        interesting = sum(1 for s in t if s["cmd"] in ("prove", "verify", "convert-to-raw", "export-vk", "export-solidity-stdout", "import-setup")) >= 2 \
+            and sum(1 for s in t if s["cmd"] == "setup") <= 2 and sum(1 for s in t if s["cmd"] == "r1cs" and s["depth"] >= 31) <= 1
         if k not in seen and interesting and len(sim) < n:
             seen.add(k)
             sim.append(t)
